@@ -412,6 +412,19 @@ def run(ctx):
         rt = Rng(seed).fork("c07run/%d" % cm)
         rts = [cc.gen_tissue(rt, cm, quick=True, force_kind=k) for k in ("single", "apart", "cluster", "nested", "pairclose")]
         rts += [cc.gen_tissue(rt, cm, quick=True) for _ in range(ntis)]
+        # contention: many small cells whose nodes all lie within the cut-off of the SAME two big triangles (the top of a cube), 8 threads, several
+        # times: every reaction is accumulated on the same three nodes from different threads (the accumulation must be atomic for the total to vanish)
+        if cm == 0:
+            big = cc.place("cube", [0.0, 0.0, 0.0], [4.0, 4.0, 1.0])
+            ft = [(1.0, 1.0)] * 3
+            cells = [cc.Cell(0, 0, big[0], big[1], ft)]
+            k = 1
+            for ix in range(-3, 4):
+                for iy in range(-3, 4):
+                    sp, sf = cc.place("tetra", [ix * 0.9 + 0.013 * iy, iy * 0.9 - 0.011 * ix, 1.18 + 0.003 * ((ix + 5 * iy) % 7)], [0.12, 0.12, 0.12])
+                    cells.append(cc.Cell(0, k, sp, sf, ft)); k += 1
+            for rep in range(4 if tier == "quick" else 12):
+                rts.append(cc.Tissue(cells, 0.3, 0.25, 0.25, 8, 0, kind="contention %d" % rep))
         rlines = [t.line("tissue") for t in rts]
         ra, rcr = cc.run_fed(exe, rlines)
         for c in rcr:
